@@ -262,7 +262,7 @@ def coq_pdfv(p):
     ctor = p.get("ctor", "Sigma")
     L = "None" if ctor == "Sigma" else "(Some (lb3 %s))" % cb3([finv(S) for S in p["Sig"]])
     h = "(Some (lh %s))" % cvec([fdet(S) for S in p["Sig"]]) if ctor == "all" else "None"
-    return "(mk_pdf %s %d %d (lb3 %s) (lb2 %s) %s %s)" % (
+    return "(@mk_pdf _ LQ %s %d %d (lb3 %s) (lb2 %s) %s %s)" % (
         cbool(bool(p.get("diag"))), p["R"], p["D"], cb3(p["Sig"]), cmat(p["mu"]), L, h)
 
 
